@@ -880,6 +880,8 @@ func runC12(c *rt.Ctx) {
 		c.Require("keys-resembling-value-or-unit", 300)
 	}
 
+	c12Apply(c12Cfg{rule: size.RuleEnableJSONStringForm | size.RuleEnableJSONObjectForm, maxKeys: 16, limit: 0})
+	refillRun(c, c.Pick(40000, 400000), "size")
 	coldStart(c, "C12", 10)
 	c12Apply(c12Cfg{rule: size.DefaultRule, maxKeys: 16, limit: 0})
 
